@@ -69,5 +69,6 @@ int grid_c10 (int argc, char **argv) ;
 SNDFILE *sfh_handle_sf (const char *name) ;
 SF_CHUNK_ITERATOR **sfh_handle_it (const char *name) ;
 void op_chunks (char **tok, int ntok) ;
+int grid_c17 (int argc, char **argv) ;
 
 #endif
